@@ -77,13 +77,19 @@ Definition judge (c : case) : list verdict :=
   let '(sp, st, w, o) := c in
   (if corresponds c then VOk else VMismatch) ::
   clause "C09_batchrelease_no_panic" (negb (bo_panic o)) ::
+  (* the finalizer is given up (the object may be gone with it) only by a deleting BatchRelease that had recorded Completed *)
+  (if bo_panic o then [] else
+   [ clause "C18_batchrelease_finalizer_guard"
+       ((negb (bo_gone o) && bo_finalizer o) || negb (sp_finalizer sp) || (sp_deleting sp && brphase_eqb (bs_phase st) PhCompleted));
+     (* and the teardown never goes quiet: finalizer kept => failed, requeued, or the status moved (own watch event) *)
+     clause "C18_batchrelease_teardown_never_stalls"
+       (if sp_deleting sp && sp_finalizer sp && negb (bo_gone o) && bo_finalizer o
+        then bo_err o || bo_requeue o || negb (status_eqb st (bo_status o)) else true) ]) ++
   (if bo_panic o || bo_gone o then [] else
    [ clause "C11_ready_is_true" (ready_is_true sp st w o);
      clause "C11_never_beyond_partition" (never_beyond_partition sp st o);
      clause "C11_completed_means_released" (completed_means_released sp st w o);
-     clause "C11_falls_back" (falls_back sp st w o);
-     clause "C18_batchrelease_finalizer_guard"
-       (bo_finalizer o || negb (sp_finalizer sp) || (sp_deleting sp && brphase_eqb (bs_phase st) PhCompleted)) ]).
+     clause "C11_falls_back" (falls_back sp st w o) ]).
 
 Definition tag (c : case) : string :=
   let '(sp, st, w, o) := c in
